@@ -38,3 +38,4 @@ try:
         if p.returncode not in (0, 1): print(p.stdout[-800:], p.stderr[-800:])
 finally:
     subprocess.run(["git", "-C", "/repo", "checkout", "--", f])
+    subprocess.run(["git","-C","/verif","checkout","--","evidence"])
